@@ -522,6 +522,272 @@ func (g *ssGen) deepNest() *shpCase {
 	return &shpCase{ll: ll, gd: ssGdef(), lookups: []gtab.LookupIndex{0}, hist: [][]glyph.Info{ssText(seq)}}
 }
 
+// ---------------------------------------------------------------- family: ignored glyphs at the edges
+//
+// Every lookup with a backtrack / lookahead sequence (GSUB 8.1, chained context 1, 2, 3) under
+// IgnoreMarks, backtrack length 1..3, lookahead length 0..2, with coverages that do / do not also
+// list the ignored mark, applied to sequences whose very first and very last glyphs are ignored
+// glyphs: one case line per lookup list, many sequences per line.
+const ssEdgeCount = 4 * 3 * 3 * 2
+
+func ssWords(alpha []glyph.ID, maxlen int) [][]glyph.ID {
+	out := [][]glyph.ID{{}}
+	prev := [][]glyph.ID{{}}
+	for n := 1; n <= maxlen; n++ {
+		var cur [][]glyph.ID
+		for _, w := range prev {
+			for _, a := range alpha {
+				cur = append(cur, append(append([]glyph.ID{}, w...), a))
+			}
+		}
+		out = append(out, cur...)
+		prev = cur
+	}
+	return out
+}
+
+func ssEdgeCase(idx int) (*shpCase, string) {
+	kind := []int{81, 61, 62, 63}[idx%4]
+	idx /= 4
+	bl := 1 + idx%3
+	idx /= 3
+	la := idx % 3
+	idx /= 3
+	withIgnored := idx%2 == 1
+	ctx := []glyph.ID{ssB}
+	if withIgnored {
+		ctx = append(ctx, ssM)
+	}
+	covT := func() coverage.Table {
+		t := coverage.Table{}
+		for i, x := range ctx {
+			t[x] = i
+		}
+		return t
+	}
+	covS := func() coverage.Set {
+		t := coverage.Set{}
+		for _, x := range ctx {
+			t[x] = true
+		}
+		return t
+	}
+	acts := []gtab.SeqLookup{{SequenceIndex: 0, LookupListIndex: 1}}
+	cd := classdef.Table{ssA: 1, ssB: 2}
+	if withIgnored {
+		cd[ssM] = 2
+	}
+	rep := func(n int, x glyph.ID) []glyph.ID {
+		l := make([]glyph.ID, n)
+		for i := range l {
+			l[i] = x
+		}
+		return l
+	}
+	var st gtab.Subtable
+	tp := uint16(6)
+	switch kind {
+	case 81:
+		tp = 8
+		s := &gtab.Gsub8_1{Input: coverage.Table{ssA: 0}, SubstituteGlyphIDs: []glyph.ID{ssC}}
+		for i := 0; i < bl; i++ {
+			s.Backtrack = append(s.Backtrack, covT())
+		}
+		for i := 0; i < la; i++ {
+			s.Lookahead = append(s.Lookahead, covT())
+		}
+		st = s
+	case 61:
+		// glyph rules: one rule per choice "B everywhere" (the ignored glyph cannot be listed twice
+		// in a glyph rule in a useful way: list it in the rule nearest to the input)
+		r1 := &gtab.ChainedSeqRule{Backtrack: rep(bl, ssB), Lookahead: rep(la, ssB), Actions: acts}
+		rules := []*gtab.ChainedSeqRule{r1}
+		if withIgnored {
+			b2 := rep(bl, ssB)
+			b2[bl-1] = ssM // the farthest backtrack glyph is the ignored one
+			l2 := rep(la, ssB)
+			if la > 0 {
+				l2[la-1] = ssM
+			}
+			rules = append(rules, &gtab.ChainedSeqRule{Backtrack: b2, Lookahead: l2, Actions: acts},
+				&gtab.ChainedSeqRule{Backtrack: rep(bl, ssM), Lookahead: rep(la, ssM), Actions: acts})
+		}
+		st = &gtab.ChainedSeqContext1{Cov: coverage.Table{ssA: 0}, Rules: [][]*gtab.ChainedSeqRule{rules}}
+	case 62:
+		cl := func(n int) []uint16 {
+			l := make([]uint16, n)
+			for i := range l {
+				l[i] = 2
+			}
+			return l
+		}
+		st = &gtab.ChainedSeqContext2{Cov: coverage.Table{ssA: 0}, Backtrack: cd, Input: cd, Lookahead: cd,
+			Rules: [][]*gtab.ChainedClassSeqRule{{}, {{Backtrack: cl(bl), Lookahead: cl(la), Actions: acts}}}}
+	default:
+		s := &gtab.ChainedSeqContext3{Input: []coverage.Set{{ssA: true}}, Actions: acts}
+		for i := 0; i < bl; i++ {
+			s.Backtrack = append(s.Backtrack, covS())
+		}
+		for i := 0; i < la; i++ {
+			s.Lookahead = append(s.Lookahead, covS())
+		}
+		st = s
+	}
+	ll := gtab.LookupList{
+		ssLookup(tp, gtab.IgnoreMarks, 0, st),
+		ssLookup(1, 0, 0, &gtab.Gsub1_2{Cov: coverage.Table{ssA: 0}, SubstituteGlyphIDs: []glyph.ID{ssC}}),
+	}
+	c := &shpCase{ll: ll, gd: ssGdef(), lookups: []gtab.LookupIndex{0}}
+	pre := ssWords([]glyph.ID{ssM, ssB}, bl+1)
+	if bl == 3 {
+		pre = ssWords([]glyph.ID{ssM, ssB}, 3)
+		pre = append(pre, []glyph.ID{ssM, ssB, ssB, ssB}, []glyph.ID{ssM, ssM, ssB, ssB}, []glyph.ID{ssB, ssM, ssM, ssB},
+			[]glyph.ID{ssM, ssB, ssM, ssB, ssM, ssB})
+	}
+	suf := ssWords([]glyph.ID{ssM, ssB}, la+1)
+	for _, p := range pre {
+		for _, q := range suf {
+			seq := append(append(append([]glyph.ID{}, p...), ssA), q...)
+			c.hist = append(c.hist, ssText(seq))
+		}
+	}
+	return c, fmt.Sprintf("type %d, backtrack %d, lookahead %d, ignored glyph in coverage=%v", kind, bl, la, withIgnored)
+}
+
+// ---------------------------------------------------------------- family: nested lookup out of reach
+//
+// Every contextual format as parent (input "A" or "A A", action at the last input glyph) and a
+// nested lookup that would need a glyph just OUTSIDE the parent's match: the second glyph of a
+// pair (formats 1 and 2), a ligature component, the input of a nested context (testcases 2_07:
+// "child matches cannot extend beyond the parent match").  For comparison: nested lookups whose
+// CONTEXT lies outside (lookahead of a chained context, lookahead of GSUB 8.1, the base glyph of a
+// mark attachment) do reach it.
+const ssReachKinds = 8
+const ssReachCount = 6 * 2 * ssReachKinds * 2
+
+func ssReachCase(idx int) (*shpCase, string) {
+	pf := []int{51, 52, 53, 61, 62, 63}[idx%6]
+	idx /= 6
+	ignore := idx%2 == 1
+	idx /= 2
+	kind := idx % ssReachKinds
+	idx /= ssReachKinds
+	long := idx%2 == 1
+	const V = glyph.ID(ssD)
+	fl := gtab.LookupFlags(0)
+	if ignore {
+		fl = gtab.IgnoreMarks
+	}
+	vr := func(x int) *gtab.GposValueRecord { return &gtab.GposValueRecord{XAdvance: funit.Int16(x)} }
+	var child gtab.Subtable
+	ctp := uint16(2)
+	name := ""
+	switch kind {
+	case 0:
+		name = "pair format 1"
+		child = gtab.Gpos2_1{glyph.Pair{Left: ssA, Right: V}: &gtab.PairAdjust{First: vr(-50)},
+			glyph.Pair{Left: ssA, Right: ssA}: &gtab.PairAdjust{First: vr(-7), Second: vr(9)}}
+	case 1:
+		name = "pair format 2"
+		child = &gtab.Gpos2_2{Cov: coverage.Set{ssA: true}, Class1: classdef.Table{ssA: 1}, Class2: classdef.Table{V: 1},
+			Adjust: [][]*gtab.PairAdjust{{{}, {}}, {{First: vr(-3)}, {First: vr(-50), Second: vr(20)}}}}
+	case 2:
+		name = "ligature"
+		ctp = 4
+		child = &gtab.Gsub4_1{Cov: coverage.Table{ssA: 0}, Repl: [][]gtab.Ligature{{{In: []glyph.ID{V}, Out: ssL}, {In: []glyph.ID{ssA, V}, Out: ssL2}}}}
+	case 3:
+		name = "nested context input"
+		ctp = 5
+		child = &gtab.SeqContext1{Cov: coverage.Table{ssA: 0}, Rules: [][]*gtab.SeqRule{{{Input: []glyph.ID{V},
+			Actions: []gtab.SeqLookup{{SequenceIndex: 0, LookupListIndex: 2}}}}}}
+	case 4:
+		name = "nested context 3 input"
+		ctp = 5
+		child = &gtab.SeqContext3{Input: []coverage.Set{{ssA: true}, {V: true, ssA: true}},
+			Actions: []gtab.SeqLookup{{SequenceIndex: 1, LookupListIndex: 2}}}
+	case 5:
+		name = "nested chained lookahead (in reach)"
+		ctp = 6
+		child = &gtab.ChainedSeqContext1{Cov: coverage.Table{ssA: 0}, Rules: [][]*gtab.ChainedSeqRule{{{Lookahead: []glyph.ID{V},
+			Actions: []gtab.SeqLookup{{SequenceIndex: 0, LookupListIndex: 2}}}}}}
+	case 6:
+		name = "nested reverse chaining lookahead (in reach)"
+		ctp = 8
+		child = &gtab.Gsub8_1{Input: coverage.Table{ssA: 0}, Lookahead: []coverage.Table{{V: 0}}, SubstituteGlyphIDs: []glyph.ID{ssB}}
+	default:
+		name = "nested pair, second glyph skipped glyphs away"
+		child = gtab.Gpos2_1{glyph.Pair{Left: ssA, Right: V}: &gtab.PairAdjust{First: vr(-50), Second: vr(5)},
+			glyph.Pair{Left: ssA, Right: ssM}: &gtab.PairAdjust{First: vr(-11)}}
+	}
+	cfl := fl
+	if kind == 7 {
+		cfl = 0 // the child sees the marks the parent ignores
+	}
+	mk := func(input []glyph.ID) gtab.Subtable {
+		acts := []gtab.SeqLookup{{SequenceIndex: uint16(len(input) - 1), LookupListIndex: 1}}
+		rest := input[1:]
+		cd := classdef.Table{ssA: 1, V: 2}
+		cls := make([]uint16, len(rest))
+		sets := make([]coverage.Set, len(input))
+		for i := range rest {
+			cls[i] = 1
+		}
+		for i := range input {
+			sets[i] = coverage.Set{ssA: true}
+		}
+		switch pf {
+		case 51:
+			return &gtab.SeqContext1{Cov: coverage.Table{ssA: 0}, Rules: [][]*gtab.SeqRule{{{Input: rest, Actions: acts}}}}
+		case 52:
+			return &gtab.SeqContext2{Cov: coverage.Table{ssA: 0}, Input: cd, Rules: [][]*gtab.ClassSeqRule{{}, {{Input: cls, Actions: acts}}}}
+		case 53:
+			return &gtab.SeqContext3{Input: sets, Actions: acts}
+		case 61:
+			return &gtab.ChainedSeqContext1{Cov: coverage.Table{ssA: 0}, Rules: [][]*gtab.ChainedSeqRule{{{Input: rest, Lookahead: []glyph.ID{V}, Actions: acts}}}}
+		case 62:
+			return &gtab.ChainedSeqContext2{Cov: coverage.Table{ssA: 0}, Backtrack: cd, Input: cd, Lookahead: cd,
+				Rules: [][]*gtab.ChainedClassSeqRule{{}, {{Input: cls, Lookahead: []uint16{2}, Actions: acts}}}}
+		}
+		return &gtab.ChainedSeqContext3{Input: sets, Lookahead: []coverage.Set{{V: true}}, Actions: acts}
+	}
+	ptp := uint16(7)
+	if pf > 60 {
+		ptp = 8
+	}
+	c := &shpCase{gd: ssGdef(), lookups: []gtab.LookupIndex{0}}
+	input := []glyph.ID{ssA}
+	if long {
+		input = []glyph.ID{ssA, ssA}
+	}
+	c.ll = gtab.LookupList{
+		ssLookup(ptp, fl, 0, mk(input)),
+		ssLookup(ctp, cfl, 0, child),
+		ssLookup(1, 0, 0, &gtab.Gsub1_2{Cov: coverage.Table{ssA: 0, V: 1}, SubstituteGlyphIDs: []glyph.ID{ssC, ssB}}),
+	}
+	var seqs [][]glyph.ID
+	for _, head := range [][]glyph.ID{{}, {ssB}, {ssM}} {
+		for _, mid := range [][]glyph.ID{{}, {ssM}, {ssM, ssM2}} {
+			for _, tail := range [][]glyph.ID{{V}, {V, ssA, V}, {ssA, V}, {}, {V, V}} {
+				seq := append([]glyph.ID{}, head...)
+				seq = append(seq, input...)
+				seq = append(seq, mid...)
+				seq = append(seq, tail...)
+				seqs = append(seqs, seq)
+			}
+		}
+	}
+	for _, seq := range seqs {
+		s := ssText(seq)
+		for i := range s {
+			if s[i].GID != ssM && s[i].GID != ssM2 {
+				s[i].Advance = 500
+			}
+		}
+		c.hist = append(c.hist, s)
+	}
+	return c, fmt.Sprintf("parent %d, ignore marks=%v, nested %s, parent input %d", pf, ignore, name, len(input))
+}
+
 // positioning: value records, pairs (both formats), mark-to-base, mark-to-mark on
 // base + marks clusters with advances.
 func (g *ssGen) positioning() *shpCase {
@@ -714,6 +980,18 @@ func areaShapeSpec(c *Ctx) {
 		sc, what := shpMarkSetCase(i)
 		c.Stat("obligation: nested lookup with the parent's flags and another filtering set", what[:9])
 		emit(sc, "mark filtering set family")
+	}
+	// the families "ignored glyphs at the very start / end of the sequence" and "nested lookup that would
+	// need a glyph just outside the parent's match", every run; many sequences per line
+	for i := 0; i < ssEdgeCount; i++ {
+		sc, what := ssEdgeCase(i)
+		c.Stat("obligation: ignored glyphs at the edges", what)
+		emit(sc, "edge family")
+	}
+	for i := 0; i < ssReachCount; i++ {
+		sc, what := ssReachCase(i)
+		c.Stat("obligation: nested lookup out of reach", what)
+		emit(sc, "reach family")
 	}
 	for c.evals < c.N && timeouts < maxTimeouts {
 		g.wild = false
